@@ -47,6 +47,7 @@ class Return(NamedTuple):
     slope: FeArray
     drdtheta: FeArray
     active: FeArray
+    converged: FeArray
 
 
 class Eigenspace(NamedTuple):
@@ -136,6 +137,13 @@ def Solve(
     ddG_e_pg = phi_e_pg + theta_e_pg * dphi_e_pg
     drdtheta_e_pg = dphi_e_pg - slope_e_pg * ddG_e_pg
 
+    # the consistency condition at the state that is returned, so that a point the loop gave up
+    # on is reported as such instead of being passed off as converged
+    r_e_pg = phi_e_pg - sigma_y - hardening.R(pOld_e_pg + dG_e_pg)
+    if rate is not None:
+        r_e_pg = r_e_pg - rate.inverse(dG_e_pg / dt)
+    converged_e_pg = np.where(active_e_pg, np.abs(r_e_pg) < tol * sigma_y, True)
+
     d_e_pg = 1.0 / (1.0 + theta_e_pg * lam)
     sig_e_pg = _Field(eigen.T, y_e_pg) @ (y_e_pg * d_e_pg)
 
@@ -149,6 +157,7 @@ def Solve(
         slope_e_pg,
         drdtheta_e_pg,
         active_e_pg,
+        converged_e_pg,
     )
 
 
